@@ -32,3 +32,24 @@ Print Assumptions qcow2_data_clusters_disjoint.
 
 Example qcow_example : l1_of 12 1000000 = 1953 /\ l2_of 12 1000000 = 64 /\ blk_of 12 1953 64 = 1000000 /\ rc_table_index 12 (5 * 2 ^ 23 + 4096) = 5.
 Proof. vm_compute. repeat split; reflexivity. Qed.
+
+(* The writer's L2 table cache (QcowWriter.v: add_l2_item / get_free_table / flush_l2_cache with recycled, cleared
+   buffers): for blocks handed over in ascending order and table offsets above everything used before, the finished
+   image maps exactly the blocks that were added, each to its data cluster, whatever the cache capacity (>= 1):
+   nothing is lost when tables are flushed and recycled, and no stale entry of a recycled buffer shows up. *)
+From E2V Require Import Qcow2.QcowWriter Qcow2.QcowWriterProofs.
+Theorem qcow2_writer_maps_exactly : forall l2s c first items,
+  0 < l2s -> (0 < c)%nat -> ascending None first items ->
+  let img := write_all l2s c first items in
+  (forall b d n, In (b, d, n) items -> qlookup l2s img b = Some d) /\
+  (forall b, ~ In b (map (fun it => fst (fst it)) items) -> qlookup l2s img b = None).
+Proof. exact writer_maps_exactly. Qed.
+Print Assumptions qcow2_writer_maps_exactly.
+
+(* seven blocks over five tables through a cache of two buffers *)
+Example writer_example :
+  let items := [(0,100,1000);(1,101,1001);(5,102,1002);(9,103,1003);(10,104,1004);(17,105,1005);(18,106,1006)] in
+  ascending None 999 items /\
+  map (qlookup 4 (write_all 4 2 999 items)) [0;1;2;5;9;10;17;18;19;4] =
+  [Some 100; Some 101; None; Some 102; Some 103; Some 104; Some 105; Some 106; None; None].
+Proof. vm_compute. repeat split; reflexivity. Qed.
